@@ -110,9 +110,7 @@ class C20(Check):
     def prepare(self, ctx):
         self.programs = corpus.load()
         self.the_plan = self.plan(ctx.tier)
-        result = ctx.run({"id": "startup", "files": {"/sim/main.lay": "nil;"}, "main": "/sim/main.lay",
-                          "gc": schedules.every("full")})
-        self.startup = result["fired"][0][0]
+        self.startup = self.startup_probe(ctx)
 
     def make(self, ctx, index):
         entry = self.the_plan[index]
